@@ -292,8 +292,8 @@ pub fn start_job(command: Arc<Command>) -> (Job, JoinHandle<()>) {
 								}
 
 								Control::NextEnding => {
-									if matches!(command_state, CommandState::Finished { .. }) {
-										trace!("child is finished, raise done flag immediately");
+									if !command_state.is_running() {
+										trace!("child is not running, raise done flag immediately");
 										done.raise();
 										return Loop::Normally;
 									}
